@@ -1,4 +1,4 @@
-PROPS = ["CTV.Props.C04", "CTV.Props.C04SctList", "CTV.Props.C04Wrappers", "CTV.Props.C04Tie"]
+PROPS = ["CTV.Props.C04", "CTV.Props.C04SctList", "CTV.Props.C04Wrappers", "CTV.Props.C04Tie", "CTV.Model.CtWrappersSpec"]
 HARNESS = [dict(pkg=".", test="TestVerifC04", timeout=900), dict(pkg="./trillian/util/", test="TestVerifC04Util", timeout=900)]
 RULE = ("tls.Marshal / tls.Unmarshal of the exported ct types, the serialization.go functions and the JSON message conversions at the length "
         "boundaries {0,1,255,256,65535,65536} (2^24-1 once in the thorough tier), both entry types, all 256 hash / signature codes, empty and "
